@@ -41,5 +41,5 @@ pub fn strategy_for(tier: Tier) -> BoxedStrategy<Case> {
 }
 
 pub fn plan(tier: Tier) -> Plan<Case> {
-    Plan { strategy: strategy_for(tier), check, shrink_iters: 16, decode_bytes: None, cases: match tier { Tier::Quick => 32, Tier::Thorough => 320 } }
+    Plan { strategy: strategy_for(tier), check, shrink_iters: 16, decode_bytes: None, watchdog_secs: 1800, cases: match tier { Tier::Quick => 32, Tier::Thorough => 320 } }
 }
